@@ -194,6 +194,9 @@ ANALYSIS = {
     ("frost-core/src/signature.rs", 83): "equivalent: only a capacity hint",
     ("frost-core/src/keys/repairable.rs", 122): "equivalent up to the error kind: the Lagrange computation refuses an identifier outside the set",
     ("frost-core/src/keys/refresh.rs", 248): "equivalent at the level of the property: refresh_dkg_shares repeats the count check, the refresh still fails",
+    ("frost-core/src/keys/refresh.rs", 384): "outside the listed properties: a refresh run in which a participant is handed fewer contributions than it gave to part 2 (C10 lists threshold change, unknown participant, non-zero constant term; C09 speaks about key generation histories)",
+    ("frost-core/src/keys/refresh.rs", 387): "outside the listed properties (see the line above)",
+    ("frost-core/src/lib.rs", 623): "was a real miss, found independently as seeded change C05-5 (a share filed under a non-signer's identifier): C05 now relabels shares and kills it",
     ("frost-core/src/keys.rs", 871): "not reachable through the public API with a wrong coefficient count",
     ("frost-core/src/keys.rs", 844): "equivalent up to the error kind: n < 2 with t >= 2 is refused by the t > n test (the existing tests pin the kind)",
     ("frost-core/src/keys.rs", 869): "redundant second validation in an internal function (public entry points validate first); the existing tests call the internal function",
